@@ -28,6 +28,8 @@ func injectedErr(s *Sim, f *FaultSpec, salt string) error {
 			return io.EOF
 		case "canceled":
 			return context.Canceled
+		case "deadline":
+			return &url.Error{Op: "Get", URL: "https://timeout.example/", Err: context.DeadlineExceeded}
 		}
 		salt = f.Site + f.Arg
 	}
@@ -43,6 +45,9 @@ func injectedErr(s *Sim, f *FaultSpec, salt string) error {
 		return io.EOF
 	case 2:
 		return context.Canceled
+	case 3:
+		// what net/http returns for a per-request or client timeout
+		return &url.Error{Op: "Get", URL: "https://timeout.example/", Err: context.DeadlineExceeded}
 	}
 	return errInjected
 }
